@@ -87,7 +87,7 @@ let run_line (w : world) (line : n list) : world * z list =
       let st = List.nth sts (min k (List.length sts - 1)) in
       ({ w with log = ("seq:" ^ file ^ "," ^ lst) :: w.log; ctr = (file, k + 1) :: List.remove_assoc file w.ctr }, [z_of_int st])
   | [] -> (w, [])
-  | _ -> ({ w with log = "?" :: w.log }, [z_of_int 0])
+  | _ -> (w, [z_of_int 0])   (* any other command (echo, true ...): not traced, succeeds *)
 
 let for_words (w : world) (text : n list) : world * n list list =
   (w, List.map str_of_string (List.filter (fun x -> x <> "") (words_of w text)))
